@@ -247,7 +247,7 @@ StreamRequest(b, payload, act, data, hret) ==
   LET arg == [id |-> b, payload |-> payload, act |-> act, data |-> data, hret |-> hret]
       answer == IF act = "none" THEN <<AnswerCmd, IF hret < 0 THEN ByteOf(hret) ELSE 0>> ELSE data
   IN
-  /\ mode = "stream" /\ Len(b) = max /\ b[1] < 128
+  /\ mode = "stream" /\ Len(b) = max /\ b[1] < 128 /\ act \in {"none", "reply", "reply2"}
   /\ reqs' = IF AllZero(b) THEN reqs ELSE Append(reqs, [id |-> b, at |-> -1])
   /\ ctr' = ctr + 1
   /\ UNCHANGED <<mode, max, target, own, attached, clen, cval, handles>>
@@ -255,15 +255,34 @@ StreamRequest(b, payload, act, data, hret) ==
              exp |-> [seen   |-> <<[id |-> Zero, reply |-> IF AllZero(b) THEN 0 ELSE 1, payload |-> payload]>>,
                       frames |-> IF AllZero(b) THEN <<>> ELSE <<[id |-> Mark(b), data |-> answer]>>,
                       r2     |-> IF act = "reply2" /\ ~AllZero(b) THEN "refused" ELSE "none"]]
+\* connection only: the handler defers the request into handle slot h (answered later, while
+\* further requests use the same context) -- nothing goes out now
+StreamDefer(b, payload, h) ==
+  LET arg == [id |-> b, payload |-> payload, act |-> "defer", h |-> h, data |-> <<>>, hret |-> 0] IN
+  /\ mode = "stream" /\ ~target /\ Len(b) = max /\ b[1] < 128 /\ ~AllZero(b) /\ handles[h] = <<>>
+  /\ reqs' = Append(reqs, [id |-> b, at |-> h])
+  /\ handles' = [handles EXCEPT ![h] = b]
+  /\ ctr' = ctr + 1
+  /\ UNCHANGED <<mode, max, target, own, attached, clen, cval>>
+  /\ obs' = [a |-> "srequest", arg |-> arg, g |-> {},
+             exp |-> [seen |-> <<[id |-> Zero, reply |-> 1, payload |-> payload]>>, frames |-> <<>>, r2 |-> "handle"]]
+\* ... and answers it through the handle later
+StreamDeferred(h, data) ==
+  /\ mode = "stream" /\ handles[h] # <<>>
+  /\ handles' = [handles EXCEPT ![h] = <<>>] /\ reqs' = SetAt(HeldAt(h), -1)
+  /\ UNCHANGED <<mode, max, target, own, attached, clen, cval, ctr>>
+  /\ obs' = [a |-> "sdreply", arg |-> [h |-> h, data |-> data], g |-> HeldAt(h),
+             exp |-> [ret |-> "ok", frames |-> <<[id |-> Mark(handles[h]), data |-> data]>>]]
 \* an attempt through the context after its request was answered: refused, nothing sent
 StreamLate(data) ==
   /\ mode = "stream" /\ reqs # <<>>
   /\ UNCHANGED state
   /\ obs' = [a |-> "slate", arg |-> [data |-> data], g |-> {},
              exp |-> [ret |-> "refused", frames |-> <<>>]]
-\* an incoming answer (marker set): handed to the handler with the decoded id, never answered
+\* an incoming answer (marker set) on a stream input: handed to the handler with the decoded
+\* id, never answered (a connection looks its own waiting callers up instead: not modelled)
 StreamAnswer(b, payload) ==
-  /\ mode = "stream" /\ Len(b) = max /\ b[1] >= 128 /\ RefBuf2Id(Unmark(b)).ok
+  /\ mode = "stream" /\ target /\ Len(b) = max /\ b[1] >= 128 /\ RefBuf2Id(Unmark(b)).ok
   /\ UNCHANGED state
   /\ obs' = [a |-> "sanswer", arg |-> [id |-> b, payload |-> payload], g |-> {},
              exp |-> [seen |-> <<[id |-> RefBuf2Id(Unmark(b)).id, reply |-> 0, payload |-> payload]>>,
@@ -288,15 +307,18 @@ InitId ==
   /\ reqs = <<>> /\ ctr = 0
   /\ obs = [a |-> "init", g |-> {}, arg |-> [mode |-> "id"], exp |-> [ret |-> "ok"]]
 
-InitStream(m) ==
-  /\ mode = "stream" /\ max = m /\ target = TRUE /\ attached = TRUE
+\* via = "input": mpt_stream_input; via = "conn": mpt_connection_dispatch on a connection whose
+\* backend is a stream (reply context of mpt_reply_deferrable over replyConnection).  In mode
+\* "stream" the variable target only remembers which of the two it is.
+InitStream(m, via) ==
+  /\ mode = "stream" /\ max = m /\ target = (via = "input") /\ attached = TRUE
   /\ own = 0 /\ clen = 0 /\ cval = <<>> /\ handles = [h \in 1..MaxH |-> <<>>]
   /\ reqs = <<>> /\ ctr = 0
-  /\ obs = [a |-> "init", g |-> {}, arg |-> [mode |-> "stream", max |-> m], exp |-> [ret |-> "ok"]]
+  /\ obs = [a |-> "init", g |-> {}, arg |-> [mode |-> "stream", max |-> m, via |-> via], exp |-> [ret |-> "ok"]]
 
 Init == \/ InitId
         \/ \E m \in Widths, t \in BOOLEAN, at \in BOOLEAN : InitCtx(m, t, at)
-        \/ \E m \in StreamWidths : InitStream(m)
+        \/ \E m \in StreamWidths, via \in {"input", "conn"} : InitStream(m, via)
 
 IdDom  == [1..4 -> LimbDom]
 BufDom == UNION {[1..n -> {0, 1, 128, 255}] : n \in 0..4} \cup UNION {[1..n -> {0, 255}] : n \in 5..10}
@@ -320,9 +342,12 @@ NextStream ==
         \/ StreamRequest(IdBytes(max), <<4, 58, 103>>, act, d, hret)
         \/ StreamRequest(Zeros(max), <<9>>, act, d, hret)
   \/ \E d \in MsgDom : StreamLate(d)
+  \/ \E h \in 1..MaxH : StreamDefer(IdBytes(max), <<5>>, h) /\ \A k \in 1..(h - 1) : handles[k] # <<>>
+  \/ \E h \in 1..MaxH, d \in MsgDom : StreamDeferred(h, d)
   \/ StreamAnswer(Mark(IdBytes(max)), <<1, 0>>)
 
-Next == NextId \/ NextCtx \/ NextStream
+\* (the mode test comes first so that TLC does not enumerate the id domain in every state)
+Next == (mode = "id" /\ NextId) \/ (mode = "ctx" /\ NextCtx) \/ (mode = "stream" /\ NextStream)
 Spec == Init /\ [][Next]_vars
 
 ---------------------------------------------------------------------------
